@@ -34,6 +34,8 @@ pub enum Class {
     Consume,
     Script,
     Panic,
+    /// handles to destroyed peers touched inside destructors (C16)
+    Dead,
 }
 
 impl Class {
@@ -46,6 +48,7 @@ impl Class {
             Class::Consume => "CONSUME",
             Class::Script => "SCRIPT",
             Class::Panic => "PANIC",
+            Class::Dead => "DEAD",
         }
     }
     pub fn parse(s: &str) -> Option<Class> {
@@ -57,6 +60,7 @@ impl Class {
             "CONSUME" => Class::Consume,
             "SCRIPT" => Class::Script,
             "PANIC" => Class::Panic,
+            "DEAD" => Class::Dead,
             _ => return None,
         })
     }
@@ -155,7 +159,7 @@ stats_struct! {
     ops, events, begins, drops_strong, required_groups, required_group_members, max_group,
     nonrequired_destroyed, dead_handle_drops, sweeps, count_obs, weak_obs, links_obs,
     links_entries, upgrades_some, upgrades_none, wprobes, wprobes_dead, wprobes_lenient,
-    deref_obs, deref_after_destroy_obs, c14_obs, c14_after_unadopt_obs, mem_obs, script_actions, script_skips,
+    deref_obs, deref_after_destroy_obs, dead_clones_attempted, dead_drops, c14_obs, c14_after_unadopt_obs, mem_obs, script_actions, script_skips,
     nested_depth_max, panics_scripted, consume_ok, consume_noop, elide_takes, table_orders,
 }
 
@@ -250,6 +254,10 @@ pub fn attribute(class: Class, rule: &'static str) -> &'static str {
         Class::Consume => match rule {
             "mem" => native,
             _ => "C12",
+        },
+        Class::Dead => match rule {
+            "mem" | "cost" | "links" => native,
+            _ => "C16",
         },
         Class::Elide => match rule {
             "once" | "live" | "panic" => "C13",
